@@ -220,12 +220,23 @@ def check(cx):
         if path_of(t)[-1:] == ['realname']:
             return 'real name'
         return None
+    def choices(t):
+        """every value the argument can take: the cases of a conditional expression, the members of a literal table the
+           call is made for in turn (`[a, b, c].iter().any(|x| match_wildcard(m, x))`)"""
+        out = []
+        for c_, l in term_cases(t):
+            if l[0] == 'elem' and isinstance(l[1], tuple) and l[1][:1] == ('array',) and len(l[1]) > 1:
+                for m_ in l[1][1:]:
+                    out.extend((And(c_, c2), l2) for c2, l2 in choices(m_))
+            else:
+                out.append((c_, l))
+        return out
     for fn, e in census:
         if e.kind == 'call' and e.data.get('local') and e.data['name'] == 'match_wildcard':
             a = e.data['args']
             # an argument chosen by a conditional expression: every feasible choice must have the role
-            mrs = [mask_role(l) for c_, l in term_cases(a[0]) if sat(And(e.pc, c_)) is not None]
-            trs = [text_role(l) for c_, l in term_cases(a[1]) if sat(And(e.pc, c_)) is not None]
+            mrs = [mask_role(l) for c_, l in choices(a[0]) if sat(And(e.pc, c_)) is not None]
+            trs = [text_role(l) for c_, l in choices(a[1]) if sat(And(e.pc, c_)) is not None]
             mr = mrs[0] if mrs and all(x is not None for x in mrs) else None
             tr = trs[0] if trs and all(x is not None for x in trs) else None
             r4.instance('%s: match_wildcard(%s, %s)' % (base_fn(fn), mr, tr))
